@@ -287,6 +287,56 @@ class CIDict(dict):
         return CIDict(self)
 
 
+class HeaderBag:
+    """headers in an ordered collection of pairs with the interface of a dict (as the header objects of web
+    frameworks have) - which is no dict and no registered Mapping"""
+
+    def __init__(self, pairs=()):
+        self._pairs = [list(p) for p in pairs]
+
+    def copy(self):
+        return HeaderBag(self._pairs)
+
+    def __len__(self):
+        return len(self._pairs)
+
+    def __iter__(self):
+        return iter(self.keys())
+
+    def __contains__(self, name):
+        return any(n == name for n, _ in self._pairs)
+
+    def __getitem__(self, name):
+        for n, v in self._pairs:
+            if n == name:
+                return v
+        raise KeyError(name)
+
+    def get(self, name, default=None):
+        return self[name] if name in self else default
+
+    def __setitem__(self, name, value):
+        for p in self._pairs:
+            if p[0] == name:
+                p[1] = value
+                return
+        self._pairs.append([name, value])
+
+    def setdefault(self, name, default=None):
+        if name not in self:
+            self[name] = default
+        return self[name]
+
+    def keys(self):
+        return [n for n, _ in self._pairs]
+
+    def values(self):
+        return [v for _, v in self._pairs]
+
+    def items(self):
+        return [(n, v) for n, v in self._pairs]
+
+
 _MK = [0]
 
 
@@ -440,7 +490,9 @@ def stress_round(ctx, seed, interleavings, case_no):
                 if k % 10 == 3 and not uses_id_adapter(i):
                     own_id = own_id_for(i, k)
                     # (the caller's headers may be a case-insensitive container, the key spelled in lower case)
-                    verb("/p", headers=(CIDict({'x-request-id': own_id}) if k % 40 == 3 else {'X-Request-ID': own_id}),
+                    verb("/p", headers=(CIDict({'x-request-id': own_id}) if k % 40 == 3 else
+                                        HeaderBag([('X-Request-ID', own_id), ('X-Worker', str(i))]) if k % 40 == 13 else
+                                        {'X-Request-ID': own_id}),
                          **kw)
                 elif k % 10 == 2:
                     # headers in a mapping that never raises KeyError (no id of the caller's in it)
